@@ -881,16 +881,36 @@ def install_stream(E):
         rd = under(E, r) if type(r) is Iface and any(a[1] is not None and "bufio.Reader" in a[1] for a in r.alts) else r
         (c, tid, dp), = [a for a in dst.alts if a[1] is not None]
         pt = E.prog.type(tid)
-        et = pt.elem()
-        u = et.under()
         g0 = E.guard
 
         def be(data, pos, off, nbytes):
             val = None
             for i in range(nbytes):
-                b = E.slice_get(data, pos + bv(off + i))
+                b = E.slice_get(data, pos + (off if isinstance(off, z3.ExprRef) else bv(off)) + bv(i))
                 val = b if val is None else z3.Concat(val, b)
             return val
+        if pt.under().kind == "slice":
+            # data is a slice of fixed-size integers (e.g. []uint16): len(data)*size bytes, big endian
+            sl = dp
+            eu = pt.under().elem().under()
+            if eu.kind != "int":
+                raise Exception("binary.Read into slice of %s" % eu.kind)
+            esz = eu.d["bits"] // 8
+            n = sl.len
+            data, pos, ok, err = take(E, rd, n * bv(esz), ins)
+            nc = E.conc(n)
+            if nc is None:
+                nc = E.copy_bound
+                E.oblige("bound", Or(Not(ok), z3.ULE(n, bv(nc))), oid="binary.Read-slice-len@%s" % ins.get("pos", ""))
+            for i in range(nc):
+                E.guard = And(g0, ok, z3.ULT(bv(i), n))
+                if is_false(E.guard):
+                    continue
+                E.slice_set(sl, bv(i), be(data, pos, i * esz, esz))
+            E.guard = g0
+            return err
+        et = pt.elem()
+        u = et.under()
         if u.kind == "int":
             nb = u.d["bits"] // 8
             data, pos, ok, err = take(E, rd, bv(nb), ins)
